@@ -293,3 +293,62 @@ pub fn cmerge(a: &[(f64, f64)], b: &[(f64, f64)]) -> Vec<(f64, f64)> {
 pub fn complex_table() -> Vec<(f64, f64)> {
     crate::fast_fft::verif::complex_table()
 }
+
+// ---------------------------------------------------------------------------
+// the 30-bit prime field used by the multi-modular Babai reduction (u32_field.rs)
+
+use crate::u32_field::U32Field;
+
+/// The modulus of U32Field.
+pub const U32_FIELD_Q: u32 = 1073754113;
+
+#[inline]
+pub fn u32f_new(v: i32) -> u32 {
+    U32Field::new(v).0
+}
+#[inline]
+pub fn u32f_balanced(v: i32) -> i32 {
+    U32Field::new(v).balanced_value()
+}
+#[inline]
+pub fn u32f_add(a: i32, b: i32) -> u32 {
+    (U32Field::new(a) + U32Field::new(b)).0
+}
+#[inline]
+pub fn u32f_sub(a: i32, b: i32) -> u32 {
+    (U32Field::new(a) - U32Field::new(b)).0
+}
+#[inline]
+pub fn u32f_mul(a: i32, b: i32) -> u32 {
+    (U32Field::new(a) * U32Field::new(b)).0
+}
+#[inline]
+pub fn u32f_multiply(a: i32, b: i32) -> u32 {
+    U32Field::new(a).multiply(U32Field::new(b)).0
+}
+#[inline]
+pub fn u32f_neg(a: i32) -> u32 {
+    (-U32Field::new(a)).0
+}
+pub fn u32f_inv(a: i32) -> u32 {
+    U32Field::new(a).inverse_or_zero().0
+}
+
+fn to_u32f(v: &[i32]) -> Polynomial<U32Field> {
+    Polynomial::new(v.iter().map(|&a| U32Field::new(a)).collect())
+}
+fn from_u32f(p: &Polynomial<U32Field>) -> Vec<u32> {
+    p.coefficients.iter().map(|f| f.0).collect()
+}
+
+/// Forward / inverse transform and ring product modulo the 30-bit prime, the way
+/// babai_reduce_i32 uses them (lengths 2..1024).
+pub fn u32_ntt(v: &[i32]) -> Vec<u32> {
+    from_u32f(&to_u32f(v).fft())
+}
+pub fn u32_intt(v: &[i32]) -> Vec<u32> {
+    from_u32f(&to_u32f(v).ifft())
+}
+pub fn u32_ntt_mul(a: &[i32], b: &[i32]) -> Vec<u32> {
+    from_u32f(&to_u32f(a).fft().hadamard_mul(&to_u32f(b).fft()).ifft())
+}
